@@ -178,7 +178,9 @@ theorem checkField_good (relaxed : Bool) (st : ClState) (v : Bytes) (vals : List
       | false => exact good_of_bad _ _ rfl
       | true =>
         simp only [Bool.not_true, Bool.false_eq_true, if_false, fieldValues, hc, Bool.and_self, if_true]
-        exact loop_good (v.length + 1) { st with needsSanitizing := true } v vals (by omega) hb hbad' hg
+        split
+        · exact good_of_bad _ _ rfl
+        · exact loop_good (v.length + 1) { st with needsSanitizing := true } v vals (by omega) hb hbad' hg
     · simp only [hc, Bool.false_eq_true, if_false, fieldValues, Bool.and_false]
       exact checkValue_good relaxed st v [] vals (by simp) hg hbad'
 
